@@ -12,7 +12,7 @@ import traceback
 VERIF = os.path.dirname(os.path.dirname(os.path.abspath(__file__)))
 sys.path.insert(0, VERIF)
 
-CONTRACT_MODULES = ['c_util', 'c_codec_dec', 'c_codec_dec2', 'c_codec_enc']
+CONTRACT_MODULES = ['c_util', 'c_codec_dec', 'c_codec_dec2', 'c_codec_enc', 'c_brokerclient']
 
 _ENG = None
 
@@ -41,7 +41,7 @@ def jobs_for(eng, prop):
     from pyvc import units
     out = []
     for qn, c in CONTRACTS.items():
-        if c.inline or c.trusted or c.extra.get('bounded'):
+        if c.inline or c.trusted or c.extra.get('bounded') or c.extra.get('inline_only'):
             continue
         props = set(c.props)
         for name in list(c.ensures) + list(c.raises):
